@@ -60,6 +60,11 @@ r := type_name(st.counter) + "/" + type_name(fr.counter) + "/" + st.counter.n + 
 	"fmtlimit": `s := x > 4 ? long : "ok"
 r := ""
 for i := 0; i < 40; i++ { r = format("%s|%d|%s|%v|%5.2f", s, x + i, s, [i, x], 1.5 * i) }`,
+	// module-level functions of a stdlib module with internal state
+	"randmod": `rand := import("rand")
+n := 0
+for i := 0; i < 60; i++ { n += rand.intn(10) >= 0 ? 1 : 0; n += rand.float() < 1.0 ? 1 : 0 }
+r := n + x`,
 	// source and builtin modules, module function constants shared by all clones
 	"modules": `math := import("math")
 m := import("mod")
@@ -69,7 +74,7 @@ r := m.f(x) + math.abs(-2) + len(enum.map([1, 2, 3], func(k, v) { return v * x }
 
 func concCompile(script string) (*tengo.Compiled, error) {
 	s := tengo.NewScript([]byte(concScripts[script]))
-	mm := stdlib.GetModuleMap("math", "enum", "text")
+	mm := stdlib.GetModuleMap("math", "enum", "text", "rand", "times")
 	mm.AddSourceModule("mod", []byte("export {f: func(a) { t := [a, a]; return t[0] + t[1] }}"))
 	mm.AddBuiltinModule("st", map[string]tengo.Object{
 		"counter": &tengo.Map{Value: map[string]tengo.Object{"n": &tengo.Int{Value: 0}}},
@@ -166,8 +171,7 @@ func concHandle(raw []byte) map[string]interface{} {
 						cl := o.Clone()
 						_ = cl.Run()
 					case "Replace":
-						o.ReplaceBuiltinModule("math", map[string]tengo.Object{"abs": &tengo.UserFunction{Name: "abs",
-							Value: func(args ...tengo.Object) (tengo.Object, error) { return &tengo.Int{Value: 2}, nil }}})
+						concReplace(o)
 					}
 				}
 			}()
@@ -194,7 +198,7 @@ func concHandle(raw []byte) map[string]interface{} {
 					}
 				}
 			}
-			idempotent := cs.Script == "strinput" || cs.Script == "stmod" || cs.Script == "fmtlimit" || cs.Script == "strindex" // r does not depend on earlier runs
+			idempotent := cs.Script == "strinput" || cs.Script == "stmod" || cs.Script == "fmtlimit" || cs.Script == "strindex" || cs.Script == "randmod" // r does not depend on earlier runs
 			if ran && !set && idempotent {
 				ref, _ := concCompile(cs.Script)
 				if e := ref.Run(); e == nil && fmt.Sprint(o.Get("r").Value()) != fmt.Sprint(ref.Get("r").Value()) {
@@ -260,10 +264,13 @@ func concHandle(raw []byte) map[string]interface{} {
 			_ = ref.Set("arr", o.Get("arr").Value())
 			_ = ref.Set("cfg", o.Get("cfg").Object().Copy())
 			_ = ref.Set("nested", o.Get("nested").Value())
+			if replacedOn(cs.Plan, n) {
+				concReplace(ref) // exactly the objects the embedder replaced modules on use the replacement; nobody else
+			}
 			e1 := o.Run()
 			e2 := ref.Run()
 			if (e1 == nil) != (e2 == nil) || (e1 == nil && fmt.Sprint(o.Get("r").Value()) != fmt.Sprint(ref.Get("r").Value())) {
-				if cs.Script != "modules" || !anyReplace(cs.Plan) {
+				{
 					problems = append(problems, fmt.Sprintf("%s computes r=%v (err %v) alone after the history, a fresh object computes r=%v (err %v)",
 						n, o.Get("r").Value(), e1, ref.Get("r").Value(), e2))
 				}
@@ -271,6 +278,26 @@ func concHandle(raw []byte) map[string]interface{} {
 		}
 	}
 	return map[string]interface{}{"problems": problems}
+}
+
+// concReplace: what an embedder does to give a clone its own module instances - first a module this script may not even import, then
+// math with an abs that is recognisably different (1000)
+func concReplace(o *tengo.Compiled) {
+	o.ReplaceBuiltinModule("times", map[string]tengo.Object{"now": &tengo.UserFunction{Name: "now",
+		Value: func(args ...tengo.Object) (tengo.Object, error) { return &tengo.Int{Value: 0}, nil }}})
+	o.ReplaceBuiltinModule("math", map[string]tengo.Object{"abs": &tengo.UserFunction{Name: "abs",
+		Value: func(args ...tengo.Object) (tengo.Object, error) { return &tengo.Int{Value: 1000}, nil }}})
+}
+
+func replacedOn(plan map[string][]map[string]string, obj string) bool {
+	for _, ops := range plan {
+		for _, op := range ops {
+			if op["kind"] == "Replace" && op["obj"] == obj {
+				return true
+			}
+		}
+	}
+	return false
 }
 
 func anyReplace(plan map[string][]map[string]string) bool {
